@@ -512,6 +512,8 @@ class Found:
     """spec failures already reported, one per kind"""
     def __init__(self):
         self.kinds = {}
+        self.env = None          # e.g. 'logging-debug': recorded in the case and the signature of what is found
+        self.no_shrink = False   # large regions: a re-run costs seconds, keep the case as it is
 
 
 def sig_of(what, alphabet, items, idx):
@@ -553,12 +555,12 @@ def shrink(m, items, what, alphabet):
 
 def report_spec(ctx, found, m, items, j, do_shrink=True):
     what, idx, detail, alphabet = j
-    key = (what, alphabet)
+    key = (what, alphabet, found.env)
     found.kinds[key] = found.kinds.get(key, 0) + 1
     if found.kinds[key] > 1:
         return
     its = items
-    if do_shrink:
+    if do_shrink and not found.no_shrink and not found.env:
         try:
             its = shrink(m, items, what, alphabet)
             recs = run_impl(m, its)
@@ -569,7 +571,14 @@ def report_spec(ctx, found, m, items, j, do_shrink=True):
                 its = items
         except Exception:
             its = items
-    ctx.fail('spec', dict(m=m, items=its), detail, sig_of(what, alphabet, its, idx))
+    case, sig = dict(m=m, items=its), sig_of(what, alphabet, its, idx)
+    if found.env:
+        case['env'] = found.env
+        sig['env'] = found.env
+        detail = '[%s] %s' % (found.env, detail)
+    if found.no_shrink:
+        case['large'] = True
+    ctx.fail('spec', case, detail, sig)
 
 
 def nontrivial_key(m, items):
@@ -1103,6 +1112,182 @@ def random_container(rng):
 
 
 # ------------------------------------------------------------------------------------------------
+# slices: large regions, DEBUG logging, python -O
+
+import contextlib
+
+
+@contextlib.contextmanager
+def debug_logging():
+    """root logger and the 'Aegean' logger at DEBUG (what `--debug` / logging.basicConfig(level=DEBUG) do), output
+    discarded; restored afterwards"""
+    import logging
+    root, aeg = logging.getLogger(), logging.getLogger('Aegean')
+    saved = (root.level, aeg.level, list(root.handlers), root.manager.disable)
+    null = logging.NullHandler()
+    try:
+        root.handlers = [null]
+        root.setLevel(logging.DEBUG)
+        aeg.setLevel(logging.DEBUG)
+        logging.disable(logging.NOTSET)
+        yield
+    finally:
+        root.handlers = saved[2]
+        root.setLevel(saved[0])
+        aeg.setLevel(saved[1])
+        logging.disable(saved[3])
+
+
+def large_cases(rng, n):
+    """count-preserving query histories on regions of a little more than 2^16 deepest pixels (a disc of ~8.5 deg
+    at depth 10): query; remove k pixels and add k others (no sky_within in between); query again"""
+    hp = hp_()
+    from AegeanTools.regions import Region
+    m = 10
+    out = []
+    for i in range(n):
+        ra, dec = rng.uniform(0.3, 6.0), math.asin(rng.uniform(-0.8, 0.8))
+        rad = math.radians(rng.uniform(8.45, 8.7))
+        vec = Region.sky2vec(np.array([[ra, dec]]))[0]
+        inside = [int(x) for x in hp.query_disc(2 ** m, vec, rad, inclusive=True, nest=True)]
+        wider = set(int(x) for x in hp.query_disc(2 ** m, vec, rad * 1.05, inclusive=True, nest=True)) - set(inside)
+        k = rng.randint(2, 5)
+        out_ = sorted(rng.sample(inside, k))
+        in_ = sorted(rng.sample(sorted(wider), k))
+        probes = sorted(out_ + in_ + rng.sample(inside, 2))
+        items = [['C', ra, dec, rad, m], ['Q', probes]]
+        style = i % 3
+        if style == 0:
+            items += [['W', {'m': m, 'build': [['N', m, out_]]}], ['N', m, in_]]
+        elif style == 1:
+            items += [['X', {'m': m, 'build': [['N', m, sorted(out_ + in_)]]}]]
+        else:
+            items += [['P'], ['N', m, in_], ['G'], ['W', {'m': m, 'build': [['N', m, out_]]}]]
+        items += [['Q', probes], ['G']]
+        out.append((m, items))
+    return out
+
+
+def large_slice(ctx, found, tmp):
+    """judged against the Python copy of the Spec only: the Lean model's list-based sets are quadratic and take
+    minutes at 2^16 pixels (evidence note); the Python Spec is cross-checked against the Lean Spec on every other case"""
+    save = found.no_shrink
+    found.no_shrink = True
+    try:
+        for m, items in large_cases(ctx.rng, 1 if ctx.quick else 4):
+            recs = run_impl(m, items, tmp)
+            judge_history(ctx, found, m, items, recs, None)
+            n = max((len(r['cov']) for r in recs if r.get('cov') is not None), default=0)
+            ctx.count('large region (>= 2^16 deepest pixels)' if n >= 2 ** 16 else 'large region (below 2^16!)')
+    finally:
+        found.no_shrink = save
+    ctx.note('large-region slice judged against the Python copy of the Spec (Lean driver not used at this size)')
+
+
+def debug_slice(ctx, found, tmp):
+    """the corpus and a sample of histories again with DEBUG logging: every answer must be what it is at the default level"""
+    hs = [(c['m'], c['items']) for c in corpus_cases()] + [rand_history(ctx.rng, False) for _ in range(25 if ctx.quick else 200)]
+    hs += [count_preserving(ctx.rng, ctx.rng.choice([2, 3, 5, 8])) for _ in range(10)]
+    save = found.env
+    found.env = 'logging-debug'
+    try:
+        with debug_logging():
+            run_histories(ctx, found, hs, tmp)
+            check_containers(ctx, found, systematic_containers(ctx.rng, 4)[::8], tmp)
+    finally:
+        found.env = save
+    ctx.count('debug-logging slice', len(hs))
+
+
+O_SLICE = r"""
+import json, sys
+sys.path.insert(0, %(harness)r)
+import common
+common.use_repo()
+import corr_C08 as c
+out = []
+for m, items in json.loads(%(cases)r):
+    try:
+        recs = c.run_impl(m, items)
+        j = c.judge_spec(m, items, recs, c.py_spec(m, [c.resolve(m, it) for it in items]))
+        trace = [(r.get('status'), r.get('state'), r.get('obs'), r.get('crash')) for r in recs]
+    except Exception as e:
+        j, trace = ('harness', 0, '%%s: %%s' %% (type(e).__name__, e), 'normalised'), []
+    out.append(dict(judge=j, trace=trace))
+# validation paths that do not go through a history
+from AegeanTools.regions import Region
+probes = {}
+for name, fn in (('add_poly with two positions', lambda: Region(3).add_poly([[0.1, 0.1], [0.2, 0.2]])),
+                 ('add_poly with no positions', lambda: Region(3).add_poly([]))):
+    try:
+        fn()
+        probes[name] = 'accepted'
+    except Exception as e:
+        probes[name] = type(e).__name__
+print('RESULT ' + json.dumps(dict(cases=out, probes=probes, optimize=sys.flags.optimize)))
+"""
+
+
+def optimize_cases(rng):
+    hs = []
+    for m, gap in ((3, 1), (4, 2), (4, -1), (5, 3), (3, -2)):
+        om = m - gap
+        for k in ('W', 'I', 'X'):
+            p = rng.randrange(12 * 4 ** min(om, m))
+            mine = sorted({p * 4 ** gap + 1, p * 4 ** gap + 2, 5}) if gap > 0 else sorted({p, 7})
+            ops = [p] if gap > 0 else [4 ** (-gap) * p + 1]
+            hs.append((m, [['N', m, mine], [k, {'m': om, 'build': [['N', om, ops]]}], ['G'], ['D']]))
+    hs.append((3, [['N', 3, [1, 2]], ['S', 0], ['L', 0], ['Q', [1, 3]]]))
+    return hs
+
+
+def run_child(flags, cases):
+    import subprocess
+    import sys as _sys
+    script = O_SLICE % dict(harness=os.path.join(common.VERIF, 'harness'), cases=json.dumps(cases))
+    env = dict(os.environ)
+    env.pop('PYTHONOPTIMIZE', None)
+    p = subprocess.run([_sys.executable] + flags + ['-W', 'ignore', '-c', script], stdout=subprocess.PIPE,
+                       stderr=subprocess.PIPE, text=True, timeout=600, env=env)
+    for line in p.stdout.splitlines():
+        if line.startswith('RESULT '):
+            return json.loads(line[7:])
+    raise common.LeanError('python %s child failed: %s' % (' '.join(flags), p.stderr[-800:]))
+
+
+def optimize_slice(ctx, found):
+    """the refusal contract (operands of another depth for without/intersect/symdiff; add_poly with < 3 positions)
+    in a child interpreter started with -O, where `assert` statements are compiled away, against the same child
+    without -O; each history is also judged against the Spec inside the -O child"""
+    cases = optimize_cases(ctx.rng)
+    opt = run_child(['-O'], cases)
+    ref = run_child([], cases)
+    if not opt.get('optimize'):
+        ctx.note('python -O child did not run optimised')
+    for (m, items), a, b in zip(cases, opt['cases'], ref['cases']):
+        case = dict(m=m, items=items, env='python -O')
+        sig = None
+        if a['judge'] is not None:
+            what, idx, detail, alphabet = a['judge']
+            sig = dict(site='regions.Region', what=what, alphabet=alphabet, env='python -O')
+            detail = '[python -O] ' + detail
+        elif a['trace'] != b['trace']:
+            i = next(k for k, (x, y) in enumerate(zip(a['trace'], b['trace'])) if x != y)
+            sig = dict(site='regions.Region', what='environment-dependence', env='python -O')
+            detail = 'item %d %s: under python -O %s, without -O %s' % (i, json.dumps(items[i])[:80], a['trace'][i], b['trace'][i])
+        if sig and ('env', sig['what']) not in found.kinds:
+            found.kinds[('env', sig['what'])] = 1
+            ctx.fail('spec', case, detail, sig)
+        ctx.count('python -O slice')
+        ctx.case(case)
+    for name in opt['probes']:
+        if opt['probes'][name] != ref['probes'].get(name):
+            ctx.fail('spec', dict(probe=name, env='python -O'),
+                     '%s: %s under python -O, %s without' % (name, opt['probes'][name], ref['probes'].get(name)),
+                     dict(site='regions.Region.add_poly', what='environment-dependence', env='python -O'))
+
+
+# ------------------------------------------------------------------------------------------------
 # corpus: the witnesses of the ledger, run first on every run
 
 CORPUS = [
@@ -1176,7 +1361,10 @@ def run(ctx):
         descs += systematic_containers(rng, m)
     descs += [random_container(rng) for _ in range(6 if ctx.quick else 120)]
     check_containers(ctx, found, descs, tmp)
-    ctx.extra['spec_failure_kinds'] = {'%s/%s' % k: v for k, v in found.kinds.items()}
+    large_slice(ctx, found, tmp)
+    debug_slice(ctx, found, tmp)
+    optimize_slice(ctx, found)
+    ctx.extra['spec_failure_kinds'] = {'/'.join(str(x) for x in k): v for k, v in found.kinds.items()}
 
 
 def search(ctx):
@@ -1213,8 +1401,23 @@ def replay(ctx, rec):
                                           stages='+'.join(k for k in STAGES if c['container'].get(k))))
         ctx.case(c)
         return
-    recs = run_impl(c['m'], c['items'], ctx.tmpdir())
-    mr = model_lines(ctx, [(c['m'], c['items'])])[0] if ctx.driver_ok else None
+    if c.get('env') == 'python -O':
+        if 'probe' in c:
+            optimize_slice(ctx, found)
+            return
+        a = run_child(['-O'], [(c['m'], c['items'])])['cases'][0]
+        b = run_child([], [(c['m'], c['items'])])['cases'][0]
+        if a['judge'] is not None:
+            ctx.fail('spec', c, '[python -O] ' + a['judge'][2], rec.get('signature'))
+        elif a['trace'] != b['trace']:
+            ctx.fail('spec', c, 'under python -O %s, without -O %s' % (a['trace'], b['trace']), rec.get('signature'))
+        ctx.case(c)
+        return
+    cm = debug_logging() if c.get('env') == 'logging-debug' else contextlib.nullcontext()
+    found.env = c.get('env')
+    with cm:
+        recs = run_impl(c['m'], c['items'], ctx.tmpdir())
+    mr = model_lines(ctx, [(c['m'], c['items'])])[0] if (ctx.driver_ok and not c.get('large')) else None
     spec = [(x[4], x[5]) for x in mr] if mr is not None else py_spec(c['m'], [resolve(c['m'], it) for it in c['items']])
     j = judge_spec(c['m'], c['items'], recs, spec)
     if j is not None:
